@@ -257,6 +257,14 @@ def run_check(mod, tier: str) -> int:
                 extra = set(axioms[n]) - ALLOWED_AXIOMS
                 if extra:
                     broken_obligations.append(f"audit: {n} depends on {sorted(extra)}")
+    # thorough tier: the toolchain's independent re-checker replays the compiled declarations through the kernel
+    if ok and tier == "thorough":
+        for f in mod.PROP_FILES:
+            rc, lc_out = sh(["lake", "env", "leanchecker", f"Dippy.Props.{f}"], cwd=LEAN_DIR, timeout=1800)
+            if rc != 0:
+                broken_obligations.append(f"leanchecker rejected Dippy.Props.{f}: " + lc_out[-300:])
+            else:
+                notes.append(f"leanchecker accepted Dippy.Props.{f}")
     bad_src = scan_sources()
     if bad_src:
         broken_obligations.append("source scan: " + "; ".join(bad_src[:5]))
@@ -271,6 +279,19 @@ def run_check(mod, tier: str) -> int:
             corr_results = mod.correspondence(ctx)
         except Infra:
             raise
+        except Exception as e:  # noqa: BLE001
+            # the harness could not attach to the implementation (an interface it wraps has moved): the tie is
+            # broken, which is not by itself a violation - the direct oracle below decides
+            import traceback
+
+            broken_corr.append({"area": "harness", "kind": "harness-cannot-attach", "input": None, "impl": "%s: %s" % (type(e).__name__, e), "model": None,
+                                "trace": traceback.format_exc()[-800:]})
+            try:
+                model.close()
+            except Exception:  # noqa: BLE001
+                pass
+            model = Model() if driver_ok else None
+            ctx.model = model
         for cr in corr_results:
             for dv in cr.get("divergences", []):
                 broken_corr.append(dict(dv, area=cr.get("area")))
@@ -280,7 +301,15 @@ def run_check(mod, tier: str) -> int:
     ctx.hints = [d.get("input") for d in broken_corr if d.get("input") is not None]
 
     # 4. direct oracle (failing-input search)
-    search = mod.search(ctx)
+    try:
+        search = mod.search(ctx)
+    except Infra:
+        raise
+    except Exception as e:  # noqa: BLE001
+        import traceback
+
+        search = {"violations": [], "evaluations": 0, "distinct_nontrivial": 0, "stats": {}, "samples": [], "oracle": "search failed: %s: %s" % (type(e).__name__, e)}
+        broken_corr.append({"area": "harness", "kind": "search-cannot-run", "input": None, "impl": "%s: %s" % (type(e).__name__, e), "model": None, "trace": traceback.format_exc()[-800:]})
     violations = search.get("violations", [])
 
     # 5. known findings
